@@ -811,3 +811,87 @@ Proof. unfold qsqrt9. apply Q2Qc_nonneg. unfold Qle. cbn [Qnum Qden].
   pose proof (Z.sqrt_nonneg (Qnum (this x) * Z.pos (Qden (this x)) * Z.pos sqrt_scale * Z.pos sqrt_scale)). lia. Qed.
 Lemma qsqrt9_zero : qsqrt9 0%Qc = 0%Qc.
 Proof. apply Qc_is_canon. vm_compute. reflexivity. Qed.
+
+(* =====================================================================================================
+   7. when is the correlation defined: the rank variance is 0 iff all entries are tied
+   ===================================================================================================== *)
+Section RankVar.
+Open Scope Qc_scope.
+Lemma sumsq_zero (l : list Qc) : qsum (map (fun x => x * x) l) = 0 -> forall x, In x l -> x = 0.
+Proof.
+  induction l as [|y l IH]; intros H x Hx; [destruct Hx|]. cbn [map qsum] in H.
+  pose proof (qsum_sq_nonneg (fun x => x) l) as HS. cbv beta in HS.
+  assert (Hy : y * y = 0 /\ qsum (map (fun x => x * x) l) = 0).
+  { generalize dependent (qsum (map (fun x0 => x0 * x0) l)). intros S _ H HS. clear - H HS.
+    assert (Hyy : 0 <= y * y) by (clear; generalize y; intro d; qc2q; nra).
+    split; apply Qcle_antisym; try assumption; qc2q; lra. }
+  destruct Hy as [Hy HS0]. destruct Hx as [<-|Hx].
+  - destruct (Qcmult_integral _ _ Hy); assumption.
+  - apply IH; assumption.
+Qed.
+
+Lemma count_le_mono v x y : x < y -> (count_lt v x + count_eq v x <= count_lt v y)%nat.
+Proof.
+  intro H. unfold count_lt, count_eq. induction v as [|z v IH]; [cbn; lia|]. cbn [filter].
+  assert (F1 : Qcltb z x = true -> z < x) by apply Qcltb_lt.
+  assert (F2 : Qceqb z x = true -> z = x) by apply Qceqb_eq.
+  assert (F3 : Qcltb z y = false -> y <= z).
+  { intro E. apply Qcnot_lt_le. intro K. apply Qcltb_lt in K. congruence. }
+  destruct (Qcltb z x), (Qceqb z x), (Qcltb z y); cbn [length]; try lia; exfalso;
+    try (specialize (F1 eq_refl)); try (specialize (F2 eq_refl)); try (specialize (F3 eq_refl)); clear IH;
+    try subst z; qc2q; lra.
+Qed.
+
+Lemma count_eq_pos v x : In x v -> (1 <= count_eq v x)%nat.
+Proof. unfold count_eq. induction v as [|z v IH]; intro H; [destruct H|]. destruct H as [->|H]; cbn [filter].
+  - rewrite (proj2 (Qceqb_eq x x) eq_refl). cbn [length]. lia.
+  - destruct (Qceqb z x); cbn [length]; [lia | apply IH, H]. Qed.
+
+Lemma qn_le a b : (a <= b)%nat -> qn a <= qn b.
+Proof. intro H. replace b with (a + (b - a))%nat by lia. rewrite qn_plus.
+  assert (K : 0 <= qn (b - a)). { destruct (b - a)%nat; [rewrite qn_0; apply Qcle_refl | apply Qclt_le_weak, qn_pos; lia]. }
+  generalize dependent (qn (b - a)). generalize (qn a). intros A B K. qc2q. lra. Qed.
+
+(* distinct values get distinct average ranks *)
+Lemma rank_lt v x y : In x v -> In y v -> x < y -> rank v x < rank v y.
+Proof.
+  intros Hx Hy H. unfold rank.
+  pose proof (qn_le _ _ (count_le_mono v x y H)) as H1. rewrite qn_plus in H1.
+  pose proof (qn_le _ _ (count_eq_pos v x Hx)) as H2. pose proof (qn_le _ _ (count_eq_pos v y Hy)) as H3.
+  change (qn 1) with 1 in *.
+  generalize dependent (qn (count_lt v x)). generalize dependent (qn (count_eq v x)).
+  generalize dependent (qn (count_lt v y)). generalize dependent (qn (count_eq v y)).
+  intros ey H3 ly ex H2 lx H1.
+  assert (E : forall z : Qc, z / two = z * half).
+  { intro z. unfold Qcdiv. f_equal. }
+  rewrite !E. unfold half, q. qc2q. lra.
+Qed.
+
+Lemma rank_var_pos v x y : In x v -> In y v -> x <> y -> 0 < rank_var v.
+Proof.
+  intros Hx Hy Hne.
+  destruct (Qcle_lt_or_eq _ _ (rank_var_nonneg v)) as [K|K]; [exact K|]. exfalso.
+  unfold rank_var in K. symmetry in K. rewrite dot_self_as_sum in K.
+  pose proof (sumsq_zero _ K) as Hz. unfold centered in Hz. cbv zeta in Hz.
+  assert (Hr : forall z, In z v -> rank v z = qmean (ranks v)).
+  { intros z Hzv. assert (Hin : In (rank v z - qmean (ranks v)) (map (fun x0 => x0 - qmean (ranks v)) (ranks v))).
+    { apply in_map_iff. exists (rank v z). split; [reflexivity|]. unfold ranks. apply in_map. exact Hzv. }
+    apply Hz in Hin. apply (f_equal (fun u => u + qmean (ranks v))) in Hin. ring_simplify in Hin. exact Hin. }
+  assert (Heq : rank v x = rank v y) by (rewrite (Hr x Hx), (Hr y Hy); reflexivity).
+  destruct (Qc_trichotomy x y) as [H|[H|H]]; [|contradiction|].
+  - pose proof (rank_lt v x y Hx Hy H) as L. rewrite Heq in L. exact (Qclt_not_eq _ _ L eq_refl).
+  - pose proof (rank_lt v y x Hy Hx H) as L. rewrite Heq in L. exact (Qclt_not_eq _ _ L eq_refl).
+Qed.
+
+(* the drops of a sample are not all tied as soon as two of its subsets change the score differently *)
+Lemma drop_var_pos (score : sample -> sample -> Qc) bm c r m m' : In m (rm r) -> In m' (rm r) ->
+  score (degrade bm c (rx r) m) (rt r) <> score (degrade bm c (rx r) m') (rt r) -> 0 < drop_var score bm c r.
+Proof.
+  intros Hm Hm' Hne. unfold drop_var, model_pair. cbn [fst].
+  apply (rank_var_pos _ (score (rx r) (rt r) - score (degrade bm c (rx r) m) (rt r))
+                        (score (rx r) (rt r) - score (degrade bm c (rx r) m') (rt r))).
+  - apply in_map_iff. exists m. split; [reflexivity | exact Hm].
+  - apply in_map_iff. exists m'. split; [reflexivity | exact Hm'].
+  - intro E. apply Hne. apply (f_equal (fun z => score (rx r) (rt r) - z)) in E. ring_simplify in E. exact E.
+Qed.
+End RankVar.
